@@ -449,7 +449,7 @@ func c20Generate(c *lib.Ctx, dry map[string]c20Res) []c20Case {
 					}
 				}
 				for _, f := range cliReplyFields(fr) {
-					vals := []uint32{0, f.Val - 1, f.Val + 1, 1<<31 - 1, 1<<32 - 1}
+					vals := []uint32{0, f.Val - 1, f.Val + 1, 1<<31 - 1, 1<<32 - 1, 1 << 29, 1<<29 + 1, 1 << 31} // incl. counts whose product with an element size wraps around 2^32
 					if thorough {
 						// boundaries of the sizes in play: MaxPacket 16, pool buffers, the 256 KiB frame limit, sign bits
 						vals = append(vals, 1, 2, 3, 4, 8, 15, 16, 17, 32, 255, 256, 65535, 65536, 1<<18 - 1, 1 << 18, 1<<18 + 1, 1 << 24, 1 << 31, 1<<31 + 1, 1<<32 - 2)
